@@ -17,6 +17,7 @@ func init() {
 		Explanation: "Decided (structural necessary conditions): R1 every close() of a channel in package contextscope executes inside sync.Once.Do of a Once that lives in the same object (so two concurrent Stop/Kill/AppendError cannot both close); R2 the error list of both context-scope implementers is read and written only under its mutex; R3 in AppendError every path that appended an error reaches Stop, no error is appended after Stop was called (observers of 'done' see the error), and Kill reaches AppendError with a non-nil error on every path; R4 the parent a child scope will sign off from is kept only on the edge where the parent's AddTasks returned nil (no construction of a scope.Scope with a parent elsewhere), and close() signs off only if that parent is non-nil; R5 IsDone is a non-blocking select. " +
 			"R6 every result of scope.(*Scope).Err is nil or built in that call from the context scope's Errors() — never a remembered earlier result, which would hide errors appended afterwards. " +
 			"Added in round 4: R1 also accepts a done signal carried by a cancel context: calling a CancelFunc whose every origin is a context.WithCancel/WithTimeout/WithDeadline result (idempotent and goroutine-safe by the documented contract); the closed flag of scope.Scope may be a plain bool or an atomic integer read through a private predicate (C11.R3). " +
+			"Added in round 6: R7 a child scope that a function creates with scope.NewChild and closes itself is closed on every path from its creation that does not hand it out in a result (an early return in between leaves a registered child that never signs off). " +
 			"NOT decided: that every appended error is reported under all interleavings beyond this lock/once discipline; timing.",
 	})
 }
